@@ -110,6 +110,69 @@ def parse_image(img):
     return fh, chunks, why
 
 
+
+def _list_key(c):
+    """the item list a chunk belongs to (spec/JlsFormat.tla ListKey), as a string"""
+    kind, tt, ck = tag_info(c["tag"])
+    if kind == "source":
+        return "src"
+    if kind == "signal" or (kind == "track" and ck in (0, 1)):
+        return "sig"
+    if kind == "user":
+        return "ud"
+    if kind == "track":
+        return "trk:%d:%d" % (c["tag"], c["meta"])
+    return "none"
+
+
+def link_projection(chunks):
+    """Where the links a reader can follow lead, as the set of distinct (list of the chunk that holds the link, list of
+    the chunk the link leads to, leads forward) triples: every entry of every track head table, and item_next of every
+    chunk that is REACHABLE: the first source / signal / user-data chunk of the file, the chunks head entries lead to,
+    the SUMMARY behind a reachable INDEX, and whatever item_next leads to from those.  A chunk no list leads to any
+    more (a dead chunk left by a repair) may keep a stale item_next.  'nochunk' = no chunk starts at that offset.
+    No judgement here (spec/JlsCrash.tla LinksLead)."""
+    byoff = {c["off"]: c for c in chunks}
+    out = set()
+    start = []
+    seen_first = set()
+    for i, c in enumerate(chunks):
+        kind, tt, ck = tag_info(c["tag"])
+        lk = _list_key(c)
+        if lk in ("src", "sig", "ud") and lk not in seen_first:
+            seen_first.add(lk)
+            start.append(c["off"])
+        if kind == "track" and ck == 1 and c["pcrc_ok"] and len(c["payload"]) == 128:
+            g = c["meta"] & 0xfff
+            for lvl, o in enumerate(struct.unpack("<16Q", c["payload"])):
+                if o:
+                    d = byoff.get(o)
+                    want = "trk:%d:%d" % (0x20 | (tt << 3) | (2 if lvl == 0 else 3), (lvl << 12) | g)
+                    out.add((want, _list_key(d) if d else "nochunk", True))
+                    if d:
+                        start.append(o)
+    nextphys = {chunks[i]["off"]: chunks[i + 1] for i in range(len(chunks) - 1)}
+    reach = set()
+    todo = list(start)
+    while todo:
+        o = todo.pop()
+        if o in reach or o not in byoff:
+            continue
+        reach.add(o)
+        c = byoff[o]
+        kind, tt, ck = tag_info(c["tag"])
+        if kind == "track" and ck == 3:
+            n = nextphys.get(o)
+            if n is not None and tag_info(n["tag"])[0] == "track" and tag_info(n["tag"])[2] == 4:
+                todo.append(n["off"])
+        if c["next"]:
+            d = byoff.get(c["next"])
+            out.add((_list_key(c), _list_key(d) if d else "nochunk", bool(c["next"] > c["off"])))
+            if d:
+                todo.append(c["next"])
+    return [{"f": f, "t": t, "fw": fw} for (f, t, fw) in sorted(out)]
+
+
 def _strings(b, pos, count):
     out = []
     for _ in range(count):
